@@ -48,7 +48,7 @@ impl Edits {
     }
     /// Apply to `src[range]`.
     fn apply(mut self, src: &str, range: Range<usize>) -> Result<String, String> {
-        self.v.sort_by_key(|e| (e.start, e.seq));
+        self.v.sort_by_key(|e| (e.start, if e.end == e.start { 0 } else { 1 }, e.seq));
         let mut out = String::new();
         let mut pos = range.start;
         let mut last_was_deletion = false;
@@ -792,6 +792,10 @@ fn handle_fn(
         match op {
             "head" => head.push_str(&format!(" {}", text)),
             "tail" => edits.insert(brange.end - 1, format!(" {} ", text)),
+            "pre_tail" => {
+                let last = block.stmts.last().ok_or("pre_tail: empty body")?;
+                edits.insert(br(last).start, format!("{} ", text));
+            }
             "loop_spec" => {
                 let l = lp(n)?;
                 edits.insert(l.body.start, format!("{} ", text));
